@@ -719,6 +719,9 @@ func (tic *TermInCommittee) validateViewChangeVotes(targetBlockHeight primitives
 			return fmt.Errorf("memberId %s appears in more than one confirmation", senderMemberIdStr)
 		}
 		set[senderMemberIdStr] = true
+		if err := tic.keyManager.VerifyConsensusMessage(confirmationBlockHeight, confirmation.SignedHeader().Raw(), confirmation.Sender()); err != nil {
+			return fmt.Errorf("confirmation of memberId %s is not signed by it: %s", senderMemberIdStr, err)
+		}
 	}
 
 	return nil
